@@ -25,6 +25,7 @@ func main() {
 	dump := flag.String("dump", "", "debug: dump SSA + guards of functions whose key contains this string")
 	replay := flag.String("replay", "", "print the findings recorded in a replay file and re-run the property")
 	list := flag.Bool("list", false, "list registered properties")
+	opsFlag := flag.Bool("ops", false, "debug: dump the bucket operation table")
 	flag.Parse()
 
 	if *list {
@@ -60,6 +61,10 @@ func main() {
 	if err != nil {
 		fmt.Fprintf(os.Stderr, "mwcheck: cannot analyse %s: %v\n", *repo, err)
 		os.Exit(2)
+	}
+	if *opsFlag {
+		rules.DumpOps(p)
+		return
 	}
 	if *dump != "" {
 		for _, f := range p.ModFuncs {
